@@ -1082,7 +1082,7 @@ class RealPart(Operator):
         if self.space_is_real:
             return self
         else:
-            return ComplexEmbedding(self.domain, scalar=1)
+            return ComplexEmbedding(self.range, scalar=1)
 
 
 class ImagPart(Operator):
@@ -1209,7 +1209,7 @@ class ImagPart(Operator):
         if self.space_is_real:
             return ZeroOperator(self.domain)
         else:
-            return ComplexEmbedding(self.domain, scalar=1j)
+            return ComplexEmbedding(self.range, scalar=1j)
 
 
 class ComplexEmbedding(Operator):
